@@ -418,6 +418,57 @@ m("C13", "old-version-missing", MIG,
   "		versioned.NewVersionedBuilder(MigrateChannelState2To3, \"3\"),",
   "C13.4", "2→3 migration not chained after version 2")
 
+# ---------------- C09
+ENV = "impl/environment.go"
+m("C09", "cleanup-keeps-transport-channel", ENV,
+  "	ce.m.transport.CleanupChannel(chid)\n",
+  "",
+  "C09.3", "cleanup never releases the transport channel", "calibration")
+m("C09", "finish-in-cancelling-leaves", FSM,
+  "	fsm.Event(datatransfer.FinishTransfer).\n		FromAny().To(datatransfer.TransferFinished).\n		FromMany(datatransfer.Failing, datatransfer.Cancelling, datatransfer.Completing).ToJustRecord().",
+  "	fsm.Event(datatransfer.FinishTransfer).\n		FromAny().To(datatransfer.TransferFinished).\n		FromMany(datatransfer.Failing, datatransfer.Completing).ToJustRecord().",
+  "C09.1", "transfer finishing while cancelling strands the channel in TransferFinished", "seeded/C09a")
+m("C09", "close-aborts-on-transport-error", IMPL,
+  "	err = m.transport.CloseChannel(ctx, chid)\n	if err != nil {\n		span.RecordError(err)\n		span.SetStatus(codes.Error, err.Error())\n		log.Warnf(\"unable to close channel %s: %s\", chid, err)\n	}",
+  "	err = m.transport.CloseChannel(ctx, chid)\n	if err != nil {\n		span.RecordError(err)\n		span.SetStatus(codes.Error, err.Error())\n		return fmt.Errorf(\"unable to close channel %s: %w\", chid, err)\n	}",
+  "C09.5", "closing a channel whose transport request never started neither cancels nor notifies", "seeded/C09b")
+m("C09", "begin-finalizing-leaves-cleanup", FSM,
+  "		// A channel that is already cleaning up must finish its cleanup\n		FromMany(datatransfer.Failing, datatransfer.Cancelling, datatransfer.Completing).ToJustRecord().\n",
+  "",
+  "C09.1", "BeginFinalizing while cleaning up strands the channel in Finalizing (defect D10)")
+m("C09", "close-nil-errch", GS,
+  "	if errch == nil {\n		return nil\n	}\n",
+  "",
+  "C09.4", "close blocks on a nil channel when there is no request (defect D3)")
+m("C09", "wrong-cancel-kind", "impl/utils.go",
+  "func (m *manager) cancelMessage(chid datatransfer.ChannelID) datatransfer.Message {\n	if chid.Initiator == m.peerID {",
+  "func (m *manager) cancelMessage(chid datatransfer.ChannelID) datatransfer.Message {\n	if chid.Responder == m.peerID {",
+  "C09.5", "cancel message of the wrong kind")
+m("C09", "no-unprotect", FSM,
+  "	env.Unprotect(otherParty, datatransfer.ChannelID{ID: channel.TransferID, Initiator: channel.Initiator, Responder: channel.Responder}.String())\n",
+  "",
+  "C09.2", "peer connection stays protected after the channel ended")
+m("C09", "failing-without-entry-func", FSM,
+  "	datatransfer.Failing:    cleanupConnection,\n",
+  "",
+  "C09.1", "failed channels are never cleaned up and never reach Failed")
+m("C09", "cleanup-leaves-mapping", GS,
+  "	// Clean up mapping from gs key to channel ID\n	c.t.requestIDToChannelID.deleteRefs(c.channelID)\n",
+  "",
+  "C09.3", "request→channel mapping left behind after cleanup", "calibration")
+m("C09", "close-with-error-no-fsm-event", IMPL,
+  "	err = m.channels.Error(chid, cherr)\n	if err != nil {\n		return fmt.Errorf(\"unable to send error %s to channel FSM: %w\", cherr, err)\n	}",
+  "	if err != nil {\n		err = m.channels.Error(chid, cherr)\n		if err != nil {\n			return fmt.Errorf(\"unable to send error %s to channel FSM: %w\", cherr, err)\n		}\n	}",
+  "C09.5", "close-with-error fails the channel only when the cancel message could not be sent")
+m("C09", "wait-without-ctx", GS,
+  "	select {\n	case <-completed:\n		return nil\n	case <-time.After(maxGSCancelWait):\n		// Fail-safe: give up waiting after a certain amount of time\n		return nil\n	case <-ctx.Done():\n		return ctx.Err()\n	}",
+  "	select {\n	case <-completed:\n		return nil\n	case <-time.After(maxGSCancelWait):\n		// Fail-safe: give up waiting after a certain amount of time\n		return nil\n	}",
+  "C09.6", "waiting for the cancelled request ignores the caller's context")
+m("C09", "unprotect-wrong-peer", FSM,
+  "	if otherParty == env.ID() {\n		otherParty = channel.Responder\n	}",
+  "	if otherParty != env.ID() {\n		otherParty = channel.Responder\n	}",
+  "C09.2", "un-protects itself instead of the counterparty")
+
 by = collections.defaultdict(list)
 for x in M:
     p = x.pop("prop")
